@@ -143,6 +143,9 @@ class Verifier(ExprMixin, StmtMixin, CallMixin, LibMixin, FoldMixin, Executor):
         if c is not None:
             for cl in c.of("requires"):
                 self.assume(st, self.eval_clause(cl, st, results=None, old=st))
+        if c is not None:
+            for cl in c.of("trusts"):
+                self.assumptions.add("trusted (unproved) postcondition of %s: %s" % (self.prog.short(func.full), cl["text"]))
         self.pre_state = st.fork()
         self.n_pre_facts = len(self.facts)
         # frame specification
@@ -297,8 +300,14 @@ def build_vc(ex, ob):
     mine = pc_literals(ob.pc)
     hyps = []
     cache = {}
+    # IEEE definitions of FP result symbols matter only to goals that reason about FP values (comparisons,
+    # classification); equalities between results follow from congruence alone
+    txt = ob.goal.sexpr() + ob.pc.sexpr() if ex.fp_defs else ""
+    want_fp = "fp." in txt or "to_fp" in txt
     for i, f in enumerate(ex.facts[:ob.nfacts]):
         if z3.is_true(f):
+            continue
+        if i in ex.fp_defs and not want_fp:
             continue
         fpc = ex.fact_pcs.get(i)
         if fpc is not None and mine:
